@@ -101,7 +101,7 @@ class Broker:
             out[sval(k)] = ce
         return out
 
-    def symbolise_stable(self, owners, name=None, tag='b'):
+    def symbolise_stable(self, owners, name=None, tag='b', fixed_ends=None):
         """Replace the stable slot lists of a non-migrating cluster by symbolic tiles.
         owners: sequence of half indices (chunk*2+part), one per tile, consecutive entries differ; the tiles
         partition 0..SLOT_NUM-1 in order.  Halves that occur own slots, the others get None.  Owning halves must be
@@ -116,6 +116,8 @@ class Broker:
         start = 0
         for j, h in enumerate(owners):
             if j == len(owners) - 1: end = SLOT_NUM - 1
+            elif fixed_ends is not None:
+                end = fixed_ends[j]; assert start <= end < SLOT_NUM - 1       # concrete tile boundaries (e.g. one-slot tiles)
             else:
                 end = z3.BitVec('%s_end%d' % (tag, j), 64)
                 e.assume(z3.ULT(end, SLOT_NUM - 1))
@@ -126,7 +128,8 @@ class Broker:
             tot = 0
             for (hh, s, en) in tiles:
                 if hh == h: tot = tot + (bv(en) - bv(s) + 1)
-            e.assume(tot == avg + (1 if h < rem else 0))
+            if fixed_ends is not None: assert sum(en - s + 1 for (hh, s, en) in tiles if hh == h) == avg + (1 if h < rem else 0), 'concrete tiles must be balanced'
+            else: e.assume(tot == avg + (1 if h < rem else 0))
         chs = self.chunks(name)
         for ci, ch in enumerate(chs):
             stable = self.fld(ch, 'ChunkStore', 'stable_slots').v
